@@ -4,7 +4,10 @@
 
 use std::collections::{BTreeMap, BTreeSet};
 
-use ruma_common::{serde::StringEnum, OwnedMxcUri, OwnedRoomId};
+use ruma_common::{
+    serde::{OrdAsRefStr, PartialOrdAsRefStr, StringEnum},
+    OwnedMxcUri, OwnedRoomId,
+};
 use ruma_macros::EventContent;
 use serde::{Deserialize, Serialize};
 
@@ -124,7 +127,7 @@ impl PackInfo {
 
 /// Usages for either an image pack or an individual image.
 #[doc = include_str!(concat!(env!("CARGO_MANIFEST_DIR"), "/src/doc/string_enum.md"))]
-#[derive(Clone, PartialEq, Eq, PartialOrd, Ord, StringEnum)]
+#[derive(Clone, PartialEq, Eq, PartialOrdAsRefStr, OrdAsRefStr, StringEnum)]
 #[ruma_enum(rename_all = "snake_case")]
 #[non_exhaustive]
 pub enum PackUsage {
